@@ -1,11 +1,11 @@
 package main
 
 import (
-	"sync"
 	"fmt"
 	"go/types"
 	"sort"
 	"strings"
+	"sync"
 
 	"golang.org/x/tools/go/ssa"
 )
@@ -174,6 +174,42 @@ func (w *World) verifyFunc(fn *ssa.Function, fc *FuncContract, mode string, extr
 			post[n] = rv[i]
 		}
 		c.curPos = fn.Pos()
+		// exit set G := e : the function is where the ghost event happens (e.g. "a de-registration was requested" is
+		// "DelPeriodReportTimer returned"); applied to every exit state before the postconditions are looked at
+		if len(fc.ExitSets) > 0 {
+			done := map[*State]bool{}
+			apply := func(st *State, vs map[string]Val, guard string) {
+				if done[st] {
+					return
+				}
+				done[st] = true
+				env := &Env{c: c, st: st, old: entry, vars: vs, pkg: pkg, guard: guard}
+				for _, g := range fc.ExitSets {
+					gd, ok := c.W.ghosts[g.Name]
+					if !ok {
+						c.fail("exit set: unknown ghost variable %s", g.Name)
+					}
+					rt := c.resolveType(pkg, gd.T)
+					v := env.eval(g.E)
+					if v.Const != nil {
+						v = env.coerceConst(v, rt.Go)
+					}
+					c.compSort["G|"+g.Name] = c.sortOfRT(rt)
+					st.heap["G|"+g.Name] = c.define("G_"+g.Name, c.sortOfRT(rt), v.L[0])
+				}
+			}
+			apply(out, post, Rret)
+			for k := range fr.rets {
+				pv := map[string]Val{}
+				for n, v := range vars {
+					pv[n] = v
+				}
+				for i, n := range fc.Results {
+					pv[n] = fr.rets[k].vals[i]
+				}
+				apply(fr.rets[k].st, pv, fr.rets[k].cond)
+			}
+		}
 		penv := &Env{c: c, st: out, old: entry, vars: post, pkg: pkg, guard: Rret}
 		for i, ow := range fc.Owns {
 			when := "true"
